@@ -179,7 +179,7 @@ func c08Fixed(c *Ctx) ([]*zr.Program, []string) {
 }
 
 func checkC08(c *Ctx) {
-	c.rule = "hand-written multi-file programs: objects of an imported type created by the importer (constructor uses its module's variables / helpers, importer has names of the same spelling, selective import, factory vs direct creation, thrown imported exception type, relay module); programs: (a) fixed families: every (declared arity 0..4 x given argument count 0..5 x call form) with a display probe in every argument and a display as first body statement (a count mismatch must be an error with no body effect); object families (independent instances, default-property copies, constructor/method arity, unknown method/property/function, 其 outside a method), text-method chains, self and mutual recursion to depth 5000; (b) random programs with 0-3 methods (arity 0-3, recursion), 0-2 types (default properties incl. collections, constructors, methods using 其), calls nested in arguments, 得到 on both call forms. Oracle: reference evaluator (value + ordered display trace). distinct_nontrivial = distinct (family / feature set, outcome kind)"
+	c.rule = "hand-written: a declared property whose name a built-in value uses for a computed or internal property (自身, 长度, 文本, 内容, …) is read, written and kept apart per object like any other; hand-written multi-file programs: objects of an imported type created by the importer (constructor uses its module's variables / helpers, importer has names of the same spelling, selective import, factory vs direct creation, thrown imported exception type, relay module); programs: (a) fixed families: every (declared arity 0..4 x given argument count 0..5 x call form) with a display probe in every argument and a display as first body statement (a count mismatch must be an error with no body effect); object families (independent instances, default-property copies, constructor/method arity, unknown method/property/function, 其 outside a method), text-method chains, self and mutual recursion to depth 5000; (b) random programs with 0-3 methods (arity 0-3, recursion), 0-2 types (default properties incl. collections, constructors, methods using 其), calls nested in arguments, 得到 on both call forms. Oracle: reference evaluator (value + ordered display trace). distinct_nontrivial = distinct (family / feature set, outcome kind)"
 	c.assumptions = []string{"method bodies use only their own parameters/locals and module-level definitions (U1)", "何为 getters and 此 are not exercised (U5)"}
 	rng := c.Rand("c08")
 	progs, shapes := c08Fixed(c)
@@ -239,6 +239,18 @@ func checkC08(c *Ctx) {
 				c.Violation("hand:"+hps[k].name, fmt.Sprintf("%s: outcome %s %v, expected %s\nprogram:\n%s", hps[k].name, got, resp.Err, hps[k].want, hps[k].src), map[string]interface{}{"req": req})
 			}
 		})
+	}
+	// a property is whatever name the type declares: also a name that some built-in value uses for a
+	// computed property or that the implementation uses internally. What was declared / written is
+	// what is read - on this object, not on another one
+	{
+		hc := []handCase{}
+		for _, pn := range []string{"自身", "长度", "数目", "文本", "内容", "首项", "末项", "所有索引", "所有值", "字数", "字符组", "逆序", "名", "类型", "状态码", "头部"} {
+			src := "定义甲：\n\t其" + pn + " = 5\n\t如何读？\n\t\t输出 其" + pn + "\n\t如何写？\n\t\t输入值\n\t\t其" + pn + " = 值\n\t\t输出 其" + pn + "\n" +
+				"令子 = （新建甲）\n令丑 = （新建甲）\n令前 = 子之" + pn + "\n子之" + pn + " = 7\n令中 = 【子之" + pn + "，以子（读），丑之" + pn + "】\n令后 = 以丑（写：9）\n输出【前，中，后，丑之" + pn + "，子之" + pn + "】\n"
+			hc = append(hc, handCase{"property-named/" + pn, src, "list[num(5),list[num(7),num(7),num(5)],num(9),num(9),num(7)]"})
+		}
+		c.runHand("property-names", hc)
 	}
 	// objects of a type that another module defines: 新建 in the importer initialises them with the
 	// constructor as its module wrote it (that module's variables, helpers, constants), 其 is the new
